@@ -199,6 +199,19 @@ def check_case(fam, collect_all, sols, preds, progs, state):
     return " ".join(parts)
 
 
+def api_variants(rng, twopass_case, n_sols, post_entries, k=3):
+    """the same inputs through the single-mode public entry points (check_and_compute_solution_set, check_set_predicates,
+    check_predicate) with an explicit post-state view, single modes and mode sequences over one shared cache"""
+    assert twopass_case.startswith("twopass ")
+    rest = twopass_case[len("twopass "):]
+    out = []
+    for _ in range(k):
+        entry = rng.choice(["cac", "cac", "csp", "cp"])
+        modes = rng.choice(["0", "1", "01", "01", "10", "11", "00", "011"])
+        out.append(f"api {entry} {modes} {rng.randrange(max(1, n_sols))} {rest} {state_tok(post_entries)}")
+    return out
+
+
 def build_pred(children_enc, programs):
     """children_enc = (starts, edges); programs = list of op lists per node -> (nodes, edges), prog bytes"""
     starts, edges = children_enc
@@ -357,6 +370,12 @@ def c06_cases(rng, tier):
         programs = [body, body, p_sat()]
         (nodes, edges), pbs = build_pred(encode_graph([[2], [2], []]), programs)
         cases.append(check_case("twopass", False, [(ADDR_A, ADDR_B, [], [])], [(ADDR_A, ADDR_B, (nodes, edges))], pbs, []))
+    # (4b) the same hostile inputs through the single-mode public entry points, with hostile post-state views
+    tp = [c for c in cases if c.startswith("twopass ")]
+    posts = [[], [(ADDR_A, [1], ("raw", []))], [(ADDR_A, [1], ("raw", [[1], [2], [3]])), (ADDR_A, [I64_MAX], 5)], [(ADDR_A, [1], 9)],
+             [(ADDR_C, [1], ("raw", [[]]))]]
+    for c_ in rng.sample(tp, min(len(tp), 150 if tier == "quick" else 3000)):
+        cases.extend(api_variants(rng, c_, 2, rng.choice(posts), k=1))
     # (5) the byte-level decoders
     c18, _ = gen_types.c18_cases(rng, tier)
     cases += [c for c in c18 if c.startswith(("decmut", "decpred"))]
@@ -531,6 +550,8 @@ def c03_case(rng, shape, read_key, n, declared, computed, pre, other_contract=Fa
         pbytes = pbytes + [prog_bytes(p_sat())]
     state = [(contract, list(k), list(v)) for k, v in pre.items()]
     case = check_case("twopass", collect_all, sols, preds, pbytes, state)
+    c03_case.last_post = [(contract, list(k), list(v)) for k, v in proposed.items()] + [e for e in state if tuple(e[1]) not in proposed]
+    c03_case.last_nsols = len(sols)
     expected = "ok * " + fmt(exp_muts) + extra
     if same_contract:
         own = fmt([(list(same_contract[0]), list(same_contract[1]))])
@@ -591,6 +612,8 @@ def c03_cases(rng, tier):
                         maddr=rng.choice([0, 0, 0, 1, 2, 257]), same_contract=same)
         cases.append(c)
         oracles.append("o_expect " + expect_tok(e) + " " + c)
+        if rng.random() < 0.4:
+            cases.extend(api_variants(rng, c, c03_case.last_nsols, c03_case.last_post if rng.random() < 0.6 else [(ADDR_A, [1], [77])], k=2))
     return cases, oracles
 
 
@@ -893,6 +916,9 @@ def c01_graph_cases(rng, children, n_numberings, collect_all, n_sols):
         exp = two_pass_expectation(p1, p2, [s[0] for s in sols])
         cases.append(case)
         oracles.append("o_ref " + expect_tok(exp) + " " + case)
+        if rng.random() < 0.35:
+            post = rng.choice([[], [(ADDR_A, [9, 9], [5])], [(ADDR_A, [9, 9], [5, 6]), (ADDR_C, [9, 9], [7])], [(ADDR_A, [9, 9], 3)]])
+            cases.extend(api_variants(rng, case, n_sols, post, k=2))
         if monotone_on_parents(children, perm):
             same.append(case)
     if len(same) >= 2:
